@@ -140,6 +140,22 @@ PROPS["C05"] = dict(
     thorough=dict(shards=16, timeout=2400),
 )
 
+PROPS["C03"] = dict(
+    pkg="c03", level="exploration", design_ref="DESIGN.md section 3, C03",
+    technique="generated values (type x position matrix, random types, value sequences) encoded by the library and read back by an independent strict Hprose parser; denotation compared in a neutral node space",
+    level_text=("Every generated encoder output must parse under an independent recursive-descent reader of the published grammar (legal tags, UTF-16 string lengths, byte "
+                "lengths, counts equal to contents, class definition before instance, back-references only to earlier referable items numbered as the specification "
+                "prescribes), be consumed exactly, contain as many values as were written, and each parsed value must equal the neutral-node denotation of the Go value. "
+                "Because the reader shares no code with the library, errors the Go encoder and decoder have in common are visible."),
+    level_note="The denotation rules (alias naming, anonymous struct = map, invalid UTF-8 string = bytes, complex = [re, im], time normalisation) are written from the library's documentation; a wrong rule would show as a failure on the unchanged tree, none is outstanding.",
+    rule=("matrix: every leaf x position cell and all 15x15 specialised maps with 10/80 rapid-drawn values, both modes, Encode and Write; sequences: 1-5 values of random "
+          "types written to one encoder without Reset, the last one optionally the very same value as the first. Non-trivial = output longer than one byte containing a "
+          "container or a string of >= 2 units; distinct by (mode, entry, types, value text)."),
+    assumptions=["hp/ref implements the published grammar; it is exercised against hand-written spellings in C06"],
+    quick=dict(shards=4, timeout=600),
+    thorough=dict(shards=16, timeout=2400),
+)
+
 # properties not claimed yet (kept current as checks land)
 _ALL = ["C%02d" % i for i in range(1, 21)]
 NOT_APPLICABLE = [dict(property_id=p, reason="check not built yet in this revision (planned in DESIGN.md section 3); not a limit of the technique")
